@@ -43,7 +43,9 @@ def _task(repo, name, cfgs, seed, per_item, exe, deep, res):
         def __init__(self, minor):
             self.q = asyncio.Queue(); self.peer = None; self.minor = minor
         def minor_version(self): return self.minor
-        async def send(self, data): await self.peer.q.put(bytes(data))
+        async def send(self, data):
+            if getattr(self, "log", None) is not None: self.log.append(bytes(data))
+            await self.peer.q.put(bytes(data))
         async def recv(self):
             d = await self.q.get()
             if d is None: raise anyio.EndOfStream
@@ -211,11 +213,108 @@ def _task(repo, name, cfgs, seed, per_item, exe, deep, res):
                 lines.append("wfrev %d" % code(sname))
                 res["fc_cases"] += 1
 
+    # ---------------- sequences of connections sharing ONE settings object per side
+    def carries_struct(m):
+        def has(t):
+            n = t["name"]
+            if n in ("list", "map"): return any(has(x) for x in t["template"])
+            return n == "anydata" or n not in SV.BASIC
+        return any(has(v["type"]) for v in m["request"] + m["response"])
+
+    async def one_connection(cst, sst, minor, p, calls):
+        """one RMC connection (client settings object cst, server settings object sst, negotiated minor version);
+        returns everything observable: header flags, wire bytes, what the implementation saw, what the caller got"""
+        a, b = Pipe(minor), Pipe(minor); a.peer = b; b.peer = a
+        wire = []; a.log = wire; b.log = wire
+        rc, rs = rmc.RMCClient(cst, a), rmc.RMCClient(sst, b)
+        obs = {"hdr": (int(bool(rc.settings["nex.struct_header"])), int(bool(rs.settings["nex.struct_header"]))), "calls": []}
+        srv = getattr(mod, make_class_name(p["name"], "Server"))()
+        cli = getattr(mod, make_class_name(p["name"], "Client"))(rc)
+        async with anyio.create_task_group() as tg:
+            tg.start_soon(rc.start, []); tg.start_soon(rs.start, [srv])
+            try:
+                for m, args, rets in calls:
+                    rec = {}
+                    rargs = [real.build_typed(v["type"], t) for v, t in zip(m["request"], args)]
+                    rrets = [real.build_typed(v["type"], t) for v, t in zip(m["response"], rets)]
+                    if len(rrets) > 1:
+                        robj = rmc.RMCResponse()
+                        for v, x in zip(m["response"], rrets): setattr(robj, v["name"], x)
+                    elif len(rrets) == 1: robj = rrets[0]
+                    else: robj = None
+                    async def impl(client, *a_, _rec=rec, _robj=robj):
+                        _rec["args"] = a_
+                        return _robj
+                    setattr(srv, m["name"], impl)
+                    w0 = len(wire)
+                    try:
+                        with anyio.fail_after(10):
+                            result = await getattr(cli, m["name"])(*rargs)
+                        flow = "ok"
+                    except common.RMCError as e:
+                        flow, result = "rmcerror " + e.name(), None
+                    except Exception as e:
+                        flow, result = "err " + exc_name(e), None
+                    if p["noresponse"] and flow == "ok":
+                        for _ in range(200):
+                            if "args" in rec: break
+                            await anyio.sleep(0)
+                    delattr(srv, m["name"])
+                    sa = rec.get("args")
+                    seen = None if sa is None else [real.canon(v["type"], x) for v, x in zip(m["request"], sa)]
+                    if flow != "ok" or p["noresponse"]: got = None
+                    elif len(m["response"]) > 1: got = [real.canon(v["type"], getattr(result, v["name"], None)) for v in m["response"]]
+                    elif len(m["response"]) == 1: got = [real.canon(m["response"][0]["type"], result)]
+                    else: got = []
+                    obs["calls"].append({"method": m["name"], "flow": flow, "wire": [x.hex() for x in wire[w0:]], "server_saw": seen, "caller_got": got})
+            finally:
+                await rc.close()
+        return obs
+
+    async def sequences(cfg):
+        def fresh():
+            s = nexsettings.default()
+            s["nex.version"] = cfg[0]; s["nex.struct_header"] = 0; s["nex.pid_size"] = cfg[2]
+            return s
+        for p in env.protos:
+            ms = [m for m in p["methods"] if m["supported"]]
+            if not ms: continue
+            pick = [m for m in ms if carries_struct(m)] or ms
+            rng.shuffle(pick)
+            pick = pick[:3]
+            minors = [4, 2, 4, 0, 3]
+            extra = [rng.choice([0, 1, 2, 3, 4, 5]) for _ in range(2)]
+            minors = minors + extra if rng.random() < 0.5 else extra + minors
+            for scenario in ("server-shared", "client-shared", "both-shared"):
+                shared_c, shared_s = fresh(), fresh()
+                snap_c, snap_s = dict(shared_c.settings), dict(shared_s.settings)
+                for step, minor in enumerate(minors):
+                    calls = []
+                    for m in pick:
+                        args = [gen.gen(v["type"], cfg, 0, False) for v in m["request"]]
+                        rets = [gen.gen(v["type"], cfg, 0, len(m["response"]) == 1 and v["type"]["name"] != "anydata") for v in m["response"]]
+                        calls.append((m, args, rets))
+                    cst = shared_c if scenario in ("client-shared", "both-shared") else fresh()
+                    sst = shared_s if scenario in ("server-shared", "both-shared") else fresh()
+                    got = await one_connection(cst, sst, minor, p, calls)
+                    twin = await one_connection(fresh(), fresh(), minor, p, calls)
+                    key = "%s:%s:seq:%s:%r:step%d:minor%d" % (name, p["name"], scenario, cfg, step, minor)
+                    changed = {k: (snap_c[k], v) for k, v in shared_c.settings.items() if snap_c.get(k) != v}
+                    changed.update({"server." + k: (snap_s[k], v) for k, v in shared_s.settings.items() if snap_s.get(k) != v})
+                    checks.append(("seq", key, len(lines), {"got": got, "twin": twin, "minor": minor, "minors": minors, "step": step, "scenario": scenario,
+                                                            "proto": p["name"], "cfg": cfg, "changed": changed,
+                                                            "calls": [(m["name"], SV.vals(a)[:1500], SV.vals(r)[:1500]) for m, a, r in calls]}))
+                    lines.append("rmccfg 0 %d" % minor)
+
     async def main():
         for ci, cfg in enumerate(cfgs):
             await session(ci, cfg)
             if cfg[1]:
                 forward_compat(cfg)
+        # one sequence scenario set per task slice, under the slice's first nex.version / pid size
+        await sequences(cfgs[0])
+        if len(cfgs) > 1 and cfgs[-1][0] != cfgs[0][0]:
+            await sequences(cfgs[-1])
     anyio.run(main)
 
     outs = driver_batch(exe, lines)
@@ -280,6 +379,28 @@ def _task(repo, name, cfgs, seed, per_item, exe, deep, res):
             if len(res["samples"]) < 2 and 0 < len(mvreq) < 200:
                 res["samples"].append({"module": name, "method": pl["proto"] + "." + m["name"], "cfg": list(pl["cfg"]), "args": base["args"][:200], "returns": base["returns"][:200]})
             res["keys"].append(key)
+        elif kind == "seq":
+            want_hdr = int(outs[i0].split()[1])
+            got, twin = pl["got"], pl["twin"]
+            base = {"module": name, "protocol": pl["proto"], "scenario": pl["scenario"], "cfg_nex_pid": [pl["cfg"][0], pl["cfg"][2]],
+                    "minor_versions_of_the_connections": pl["minors"], "failing_step": pl["step"], "minor_version": pl["minor"],
+                    "calls": pl["calls"], "vkey": "connection-sequence:%s" % name,
+                    "how": "make connections one after the other with the given negotiated minor versions; the side(s) named by `scenario` pass the SAME Settings object to every RMCClient; compare with a fresh pair with fresh Settings"}
+            tag("seq:%s:minor%d:%s" % (pl["scenario"], pl["minor"], "same" if got == twin and not pl["changed"] else "DIFFERS"))
+            if got["hdr"] != (want_hdr, want_hdr):
+                diff(key, "connection %d of the sequence %r (minor version %d) runs with struct_header=%r (client, server); struct_header_auto says %d" % (
+                    pl["step"], pl["minors"], pl["minor"], got["hdr"], want_hdr), dict(base, observed=got["hdr"]))
+            elif got != twin:
+                d = next((i for i, (x, y) in enumerate(zip(got["calls"], twin["calls"])) if x != y), 0)
+                x, y = got["calls"][d], twin["calls"][d]
+                what = [k for k in ("flow", "server_saw", "caller_got", "wire") if x[k] != y[k]]
+                diff(key, "connection %d of the sequence %r (%s, minor version %d) does not behave like a fresh pair with fresh settings: call %s differs in %s (flow %s vs %s)" % (
+                    pl["step"], pl["minors"], pl["scenario"], pl["minor"], x["method"], what, x["flow"], y["flow"]),
+                     dict(base, shared={k: str(x[k])[:1500] for k in x}, fresh={k: str(y[k])[:1500] for k in y}))
+            elif pl["changed"]:
+                diff(key, "the caller's Settings object was modified by the library after connection %d of %r: %r" % (pl["step"], pl["minors"], pl["changed"]), dict(base, changed=repr(pl["changed"])))
+            else:
+                res["keys"].append(key)
         elif kind == "fc":
             mvis, mdec, mwf = outs[i0:i0 + 3]
             sname = pl["struct"]
